@@ -36,7 +36,8 @@ def Wp {α : Type} (E : PErr → LR → Prop) (m : PM α) (lr : LR) (Q : α → 
   Res E Q (m.run lr)
 
 /-- The Hoare triple: from every state in `P`. -/
-def Safe {α : Type} (E : PErr → LR → Prop) (P : LR → Prop) (m : PM α) (Q : α → LR → Prop) : Prop :=
+def Safe {α : Type} (E : PErr → LR → Prop) (P : LR → Prop) (m : PM α) (Q : α → LR → Prop) :
+    Prop :=
   ∀ lr, P lr → Wp E m lr Q
 
 variable {α β : Type} {E : PErr → LR → Prop} {lr : LR}
@@ -87,7 +88,8 @@ theorem Wp.modifyGet {f : LR → α × LR} {Q : α → LR → Prop} (h : Q (f lr
 
 /-- What a result of a run means for `Wp`. -/
 theorem Wp.of_run {m : PM α} {Q : α → LR → Prop} (h : Wp E m lr Q) :
-    (∀ a lr1, m.run lr = (.ok a, lr1) → Q a lr1) ∧ (∀ e lr1, m.run lr = (.error e, lr1) → E e lr1) := by
+    (∀ a lr1, m.run lr = (.ok a, lr1) → Q a lr1) ∧
+    (∀ e lr1, m.run lr = (.error e, lr1) → E e lr1) := by
   unfold Wp at h
   refine ⟨?_, ?_⟩
   · intro a lr1 hr; rw [hr] at h; exact h
@@ -338,7 +340,9 @@ theorem Wp.tabsF (e : Ext lr0 lr) (off : Nat) :
 /-- `newline` at the cursor: nothing, LF, or CRLF. -/
 theorem Wp.newline0F (e : Ext lr0 lr) :
     Wp E (PM.scan (Text.newline · 0)) lr (fun r lr1 => Ext lr0 lr1 ∧
-      ((r = 0 ∧ lr0.v.rest[0]? ≠ some 10) ∨ (r = 1 ∧ lr0.v.rest[0]? = some 10) ∨
+      ((r = 0 ∧ lr0.v.rest[0]? ≠ some 10 ∧
+          (lr0.v.rest[0]? = some 13 → lr0.v.rest[1]? ≠ some 10)) ∨
+        (r = 1 ∧ lr0.v.rest[0]? = some 10) ∨
         (r = 2 ∧ lr0.v.rest[0]? = some 13 ∧ lr0.v.rest[1]? = some 10)) ∧
       lr1.v.peeked = max lr.v.peeked
         (lr0.v.pos + (if r = 0 then (if lr0.v.rest[0]? = some 13 then 2 else 1) else r))) := by
@@ -358,11 +362,11 @@ theorem Wp.newline0F (e : Ext lr0 lr) :
         refine ⟨e2, Or.inr (Or.inr ⟨rfl, h13, h1⟩), ?_⟩
         simp only [p2, p1]; simp <;> omega
       · rw [s3 h13 h1]
-        refine ⟨e2, Or.inl ⟨rfl, h10⟩, ?_⟩
+        refine ⟨e2, Or.inl ⟨rfl, h10, fun _ => h1⟩, ?_⟩
         simp only [p2, p1, h13]; simp <;> omega
     · rw [s4 h10 h13]
       obtain ⟨e1, p, _⟩ := e.demandF 0
-      refine ⟨e1, Or.inl ⟨rfl, h10⟩, ?_⟩
+      refine ⟨e1, Or.inl ⟨rfl, h10, fun h => absurd h h13⟩, ?_⟩
       simp only [p, h13]; simp
 
 /-- `next_newline` from `off`: up to and including the next LF, or to the end of the input. -/
